@@ -48,7 +48,14 @@ RS_cap ==        \* C15: match cap (MaxMatches = 2 in the model)
                 R(2, TRUE,  FALSE, 2, C("M", 0, 0)) >>,
    imports |-> << >>]
 
-RSOf(n) == CASE n = "protocol" -> RS_protocol [] n = "history" -> RS_history [] n = "resume" -> RS_resume
+RS_fibers ==     \* C10/C15: a regexp that exhausts the fiber pool on "bomb" blocks
+  [rules |-> << R(1, FALSE, FALSE, 1, C("M", 0, 0)),
+                R(1, FALSE, FALSE, 0, C("F", 0, 0)),          \* the rule that owns the exploding regexp: never true
+                R(1, FALSE, FALSE, 2, C("Cnt", 0, 1)),
+                R(2, TRUE,  FALSE, 0, C("FS", 8, 0)) >>,
+   imports |-> << >>, bomb |-> TRUE]
+
+RSOf(n) == CASE n = "fibers" -> RS_fibers []  n = "protocol" -> RS_protocol [] n = "history" -> RS_history [] n = "resume" -> RS_resume
              [] n = "cap" -> RS_cap
 
 \* ---- files (marker counts for markers 1, 2)
@@ -67,6 +74,11 @@ FilesOf(n) ==
            F(2, 8, TRUE,  FALSE, << B(3, <<1, 0>>, UNDEF), B(5, <<1, 1>>, UNDEF) >>),
            F(3, 8, TRUE,  FALSE, << B(2, <<1, 0>>, UNDEF), B(0, <<0, 0>>, UNDEF), B(6, <<1, 1>>, UNDEF) >>),
            F(4, 8, TRUE,  FALSE, << B(2, <<0, 1>>, UNDEF), B(2, <<1, 0>>, UNDEF), B(2, <<0, 0>>, UNDEF), B(2, <<1, 0>>, UNDEF) >>) }
+    [] n = "fibers" ->
+         { F(1, 8, FALSE, FALSE, << B(8, <<1, 1>>, UNDEF) >>),
+           F(2, 8, FALSE, FALSE, << [size |-> 8, mk |-> <<1, 0>>, ep |-> UNDEF, bomb |-> TRUE] >>),
+           F(3, 8, FALSE, FALSE, << B(3, <<1, 0>>, UNDEF), [size |-> 5, mk |-> <<0, 1>>, ep |-> UNDEF, bomb |-> TRUE] >>),
+           F(4, 8, FALSE, FALSE, << [size |-> 3, mk |-> <<0, 0>>, ep |-> UNDEF, bomb |-> TRUE], B(5, <<1, 1>>, UNDEF) >>) }
     [] n = "cap" ->
          { F(1, 8, FALSE, FALSE, << B(8, <<3, 1>>, UNDEF) >>),
            F(2, 8, FALSE, FALSE, << B(4, <<2, 1>>, UNDEF), B(4, <<2, 2>>, UNDEF) >>),
@@ -91,7 +103,7 @@ Next ==
      /\ \E f \in Files, fl \in FlagSets, to \in (IF WithTimeout THEN BOOLEAN ELSE {FALSE}), m \in {"mem", "blocks"} :
           m \in ModeOf(f) /\ ScanFresh(f, fl, to, m)
   \/ /\ UNCHANGED <<nscans, nnr>>
-     /\ \/ ScanResume \/ BlockTimeout \/ IterBlock \/ ScanBlock \/ BlockDone \/ IterNull \/ ImportSkip \/ ExecRule \/ ExecTimeout
+     /\ \/ ScanResume \/ BlockTimeout \/ IterBlock \/ ScanBlock \/ BlockFails \/ BlockDone \/ IterNull \/ ImportSkip \/ ExecRule \/ ExecTimeout
         \/ ExecEnd \/ ReportSkip \/ ExecNotReady
         \/ \E r \in Replies : ImportModule(r) \/ ModuleImported(r) \/ ReportRule(r) \/ Finished(r)
         \/ \E r \in Replies, i \in RuleIdx : TooMany(i, r)
